@@ -131,6 +131,22 @@ theorem chg_foldl_issue (l : List MutReq) : ∀ m : Mach,
   | nil => intro m; exact HChg.refl m
   | cons r rs ih => intro m; exact (chg_issueLogged m r).trans (ih _)
 
+theorem chg_subLogged (m : Mach) (r : SubReq) : HChg F m (subLogged m r) := by
+  unfold subLogged doSub
+  split
+  · split <;> exact HChg.of_eq rfl rfl rfl rfl
+  · split <;> first | exact HChg.of_eq rfl rfl rfl rfl | (split <;> exact HChg.of_eq rfl rfl rfl rfl)
+
+theorem chg_foldl_sub (l : List SubReq) : ∀ m : Mach,
+    HChg F m (l.foldl (fun mm r => subLogged mm r) m) := by
+  induction l with
+  | nil => intro m; exact HChg.refl m
+  | cons r rs ih => intro m; exact (chg_subLogged m r).trans (ih _)
+
+theorem chg_whenArgsStage (m : Mach) (t : Tx) (name : HName) : HChg F m (whenArgsStage m t name) := by
+  unfold whenArgsStage
+  exact HChg.of_eq rfl rfl rfl rfl
+
 /-- the oracle can only fault when `F` holds. -/
 def OrcF (F : Prop) (orc : Oracle) : Prop :=
   ∀ b n k beh, orc b n k = some beh → (beh.act = .panic ∨ beh.act = .timeout) → F
@@ -202,7 +218,7 @@ theorem processHandlers_spec (orc : Oracle) (hF : OrcF F orc) (name : HName) :
   induction live with
   | nil =>
     intro m t pk _
-    refine ⟨HChg.refl m, SameTx.refl t, ⟨rfl, rfl, rfl⟩, ?_⟩
+    refine ⟨chg_whenArgsStage m t name, SameTx.refl t, ⟨rfl, rfl, rfl⟩, ?_⟩
     intro _ h
     simp only [processHandlers] at h
     rcases h with h | h
@@ -220,27 +236,22 @@ theorem processHandlers_spec (orc : Oracle) (hF : OrcF F orc) (name : HName) :
         · rename_i hnf
           refine ⟨HChg.refl m, SameTx.refl t, ⟨rfl, rfl, rfl⟩, ?_⟩
           intro hfin; exact absurd hfin hnf
-      · have g1 : HChg (F ∧ t.latestIsFinal = true) m (beh.muts.foldl (fun mm r => issueLogged mm r)
-            ((bumpCount m (b, name)).emit (.h b name m.active))) :=
-          ((chg_bump m _).trans (chg_emit _ _)).trans (chg_foldl_issue _ _)
+      · have g1 : HChg (F ∧ t.latestIsFinal = true) m (handlerBody m b name beh) :=
+          (((chg_bump m _).trans (chg_emit _ _)).trans (chg_foldl_issue _ _)).trans (chg_foldl_sub _ _)
         split
         · rename_i okv hact
           split
-          · obtain ⟨h1, h2, h3, h4⟩ := ih (beh.muts.foldl (fun mm r => issueLogged mm r)
-              ((bumpCount m (b, name)).emit (.h b name m.active))) t pk hok
+          · obtain ⟨h1, h2, h3, h4⟩ := ih (handlerBody m b name beh) t pk hok
             exact ⟨g1.trans h1, h2, h3, h4⟩
           · rename_i hcond
             refine ⟨g1, SameTx.refl t, ⟨rfl, rfl, rfl⟩, ?_⟩
             intro hfin
             simp [hfin] at hcond
         · rename_i d hact
-          obtain ⟨h1, h2, h3, h4⟩ := ih (markDetached (beh.muts.foldl (fun mm r => issueLogged mm r)
-              ((bumpCount m (b, name)).emit (.h b name m.active))) d) t pk hok
+          obtain ⟨h1, h2, h3, h4⟩ := ih (markDetached (handlerBody m b name beh) d) t pk hok
           have gd : HChg (F ∧ t.latestIsFinal = true)
-              (beh.muts.foldl (fun mm r => issueLogged mm r)
-                ((bumpCount m (b, name)).emit (.h b name m.active)))
-              (markDetached (beh.muts.foldl (fun mm r => issueLogged mm r)
-                ((bumpCount m (b, name)).emit (.h b name m.active))) d) :=
+              (handlerBody m b name beh)
+              (markDetached (handlerBody m b name beh) d) :=
             HChg.of_eq rfl rfl rfl rfl
           exact ⟨(g1.trans gd).trans h1, h2, h3, h4⟩
         · rename_i hact
@@ -249,25 +260,18 @@ theorem processHandlers_spec (orc : Oracle) (hF : OrcF F orc) (name : HName) :
         · rename_i hact
           have f : F := hF b name _ beh horc (Or.inl hact)
           have hr : HChg (F ∧ t.latestIsFinal = true)
-              (beh.muts.foldl (fun mm r => issueLogged mm r)
-                ((bumpCount m (b, name)).emit (.h b name m.active)))
-              (recoverToErr (beh.muts.foldl (fun mm r => issueLogged mm r)
-                ((bumpCount m (b, name)).emit (.h b name m.active))) t).1 := by
+              (handlerBody m b name beh)
+              (recoverToErr (handlerBody m b name beh) t).1 := by
             by_cases hfin : t.latestIsFinal = true
             · exact recoverToErr_chg _ t ⟨f, hfin⟩ hok
             · exact (recoverToErr_quiet _ t (by simpa using hfin)).weaken (fun x => x.elim)
           obtain ⟨e1, e2, e3, e4, e5, e6, e7, e8, e9, e10⟩ := recoverToErr_tx
-            (beh.muts.foldl (fun mm r => issueLogged mm r)
-              ((bumpCount m (b, name)).emit (.h b name m.active))) t
-          have st : SameTx t (recoverToErr (beh.muts.foldl (fun mm r => issueLogged mm r)
-            ((bumpCount m (b, name)).emit (.h b name m.active))) t).2 := ⟨e1, e5, e6, e7, e8, e9, e10⟩
-          have sl : SameLatest t (recoverToErr (beh.muts.foldl (fun mm r => issueLogged mm r)
-            ((bumpCount m (b, name)).emit (.h b name m.active))) t).2 := ⟨e2, e3, e4⟩
+            (handlerBody m b name beh) t
+          have st : SameTx t (recoverToErr (handlerBody m b name beh) t).2 := ⟨e1, e5, e6, e7, e8, e9, e10⟩
+          have sl : SameLatest t (recoverToErr (handlerBody m b name beh) t).2 := ⟨e2, e3, e4⟩
           split
-          · have hok' : (recoverToErr (beh.muts.foldl (fun mm r => issueLogged mm r)
-                ((bumpCount m (b, name)).emit (.h b name m.active))) t).2.latestIsFinal = true →
-                FinalOk (recoverToErr (beh.muts.foldl (fun mm r => issueLogged mm r)
-                ((bumpCount m (b, name)).emit (.h b name m.active))) t).2 := by
+          · have hok' : (recoverToErr (handlerBody m b name beh) t).2.latestIsFinal = true →
+                FinalOk (recoverToErr (handlerBody m b name beh) t).2 := by
               intro hf
               rw [e4] at hf
               unfold FinalOk
@@ -589,24 +593,36 @@ theorem chg_afterFinals (orc : Oracle) (hF : OrcF F orc) (m4 : Mach) (t4 : Tx) (
   · exact (g5.trans g6).trans (quiet_finish _ _ _).toChg
   · exact ((g5.trans g6).trans (quiet_autoStage _ _ _).toChg).trans (quiet_finish _ _ _).toChg
 
+theorem applyTarget_spec (m1 : Mach) (t2 : Tx) (h : Resolved m1.sch t2) :
+    Chg F m1 (applyTarget m1 t2).1 ∧ (applyTarget m1 t2).2.mu = t2.mu ∧
+    (applyTarget m1 t2).2.timeBefore = t2.timeBefore ∧
+    (applyTarget m1 t2).2.timeAfter = (applyTarget m1 t2).1.clock := by
+  obtain ⟨c, toSet, hc, htg⟩ := h
+  refine ⟨?_, rfl, rfl, rfl⟩
+  have g2 : Chg F m1 (applyActive m1 t2.mu.called t2.target) := by
+    rw [htg]; exact Chg.apply c toSet _ hc
+  exact g2.trans (Chg.of_eq rfl rfl rfl rfl)
+
+theorem applyTarget_timeAfter (m1 : Mach) (t2 : Tx) :
+    (applyTarget m1 t2).2.timeAfter = (applyTarget m1 t2).1.clock := rfl
+
+theorem runFinals_spec (orc : Oracle) (hF : OrcF F orc) (m3 : Mach) (t3 : Tx) :
+    HChg F m3 (runFinals orc m3 t3).1 ∧
+    ((runFinals orc m3 t3).2.2 = false → F ∧ FinalOk (runFinals orc m3 t3).2.1) ∧
+    (runFinals orc m3 t3).2.1.mu = t3.mu ∧
+    (runFinals orc m3 t3).2.1.timeBefore = t3.timeBefore ∧
+    (runFinals orc m3 t3).2.1.timeAfter = t3.timeAfter := by
+  unfold runFinals
+  split
+  · exact emitFinals_spec orc hF _ _ m3 t3
+  · exact ⟨HChg.refl m3, by simp, rfl, rfl, rfl⟩
+
 theorem chg_applyPhase (orc : Oracle) (hF : OrcF F orc) (m1 : Mach) (t2 : Tx)
     (h : Resolved m1.sch t2) : Chg F m1 (applyPhase orc m1 t2).1 := by
   simp only [applyPhase]
-  obtain ⟨c, toSet, hc, htg⟩ := h
-  have g2 : Chg F m1 (applyActive m1 t2.mu.called t2.target) := by
-    rw [htg]; exact Chg.apply c toSet _ hc
-  have g3 := g2.trans (chg_emit (F := F) (applyActive m1 t2.mu.called t2.target)
-    (.tFinals (applyActive m1 t2.mu.called t2.target).clock (applyActive m1 t2.mu.called t2.target).active)).toChg
-  split
-  · obtain ⟨k, fo, _, _, _⟩ := emitFinals_spec orc hF
-      ({ t2 with timeAfter := (applyActive m1 t2.mu.called t2.target).clock } : Tx).enters
-      (({ t2 with timeAfter := (applyActive m1 t2.mu.called t2.target).clock } : Tx).exits ++
-        ({ t2 with timeAfter := (applyActive m1 t2.mu.called t2.target).clock } : Tx).enters)
-      ((applyActive m1 t2.mu.called t2.target).emit
-        (.tFinals (applyActive m1 t2.mu.called t2.target).clock (applyActive m1 t2.mu.called t2.target).active))
-      { t2 with timeAfter := (applyActive m1 t2.mu.called t2.target).clock }
-    exact (g3.trans k.toChg).trans (chg_afterFinals orc hF _ _ _ fo)
-  · exact g3.trans (chg_afterFinals orc hF _ _ _ (by simp))
+  obtain ⟨g1, _, _, _⟩ := applyTarget_spec (F := F) m1 t2 h
+  obtain ⟨g2, fo, _, _, _⟩ := runFinals_spec orc hF (applyTarget m1 t2).1 (applyTarget m1 t2).2
+  exact (g1.trans g2.toChg).trans (chg_afterFinals orc hF _ _ _ fo)
 
 end
 
@@ -680,7 +696,12 @@ theorem chg_runOne (orc : Oracle) (hF : OrcF F orc) (m : Mach) (mu : Mut) (rest 
   obtain ⟨g2, hn⟩ := newTx_spec (shiftQueue m mu rest) mu
   have hn' : Resolved (newTx (shiftQueue m mu rest) mu).1.sch (newTx (shiftQueue m mu rest) mu).2 := by
     rw [g2.sch]; exact hn
-  exact (g1.trans g2).toChg.trans (chg_emitEvents orc hF _ _ hn')
+  have g3 := (g1.trans g2).toChg.trans (chg_emitEvents (F := F) orc hF _ _ hn')
+  split
+  · exact g3
+  · split
+    · exact g3.trans (Chg.of_eq rfl rfl rfl rfl)
+    · exact g3.trans (Chg.of_eq rfl rfl rfl rfl)
 
 theorem chg_drain (orc : Oracle) (hF : OrcF F orc) : ∀ (fuel : Nat) (m : Mach) (rets : List Res),
     Chg F m (drain orc fuel m rets).1 := by
